@@ -39,10 +39,17 @@ const (
 	// terminal.Op(S): a multi-byte operator / keyword token (its node's Token() is S itself - also when S is a name the
 	// library uses for its own nodes: "EOF", "EMPTY", "SEQ", "NIL")
 	OpKw
+	// a hand-written parser that always succeeds without consuming input and returns a marker node of the user's own
+	// whose Pos() is parsley.NilPos ("no position of its own") and whose ReaderPos() is the call position: an ε with a
+	// node that is not ast.EmptyNode
+	OpMark
+	// SeqOf(kids...).HandleResult(<a result handler of the user's own that returns the FIRST matched node>): the
+	// look-ahead idiom "x, provided that y follows"
+	OpSeqPickFirst
 )
 
 var opNames = map[Op]string{OpSeqOf: "Seq", OpSeqTry: "SeqTry", OpSeqFirstOrAll: "SeqFOA", OpAny: "Any", OpChoice: "Choice",
-	OpRTrim: "RTrim", OpLTrim: "LTrim", OpSingle: "Single", OpSuppress: "SuppressError", OpSeqRetSingle: "SeqReturnSingle", OpEnd: "End", OpOpt: "Opt", OpMany: "Many", OpMany1: "Many1", OpSepBy: "SepBy", OpSepBy1: "SepBy1"}
+	OpRTrim: "RTrim", OpLTrim: "LTrim", OpSingle: "Single", OpSuppress: "SuppressError", OpSeqRetSingle: "SeqReturnSingle", OpSeqPickFirst: "SeqPickFirst", OpEnd: "End", OpOpt: "Opt", OpMany: "Many", OpMany1: "Many1", OpSepBy: "SepBy", OpSepBy1: "SepBy1"}
 
 // Expr is a grammar expression. ID is unique within a grammar.
 type Expr struct {
@@ -109,6 +116,8 @@ func (e *Expr) String() string {
 		return "End"
 	case OpKw:
 		return fmt.Sprintf("%q", e.S)
+	case OpMark:
+		return "mark"
 	case OpRTrim, OpLTrim:
 		return fmt.Sprintf("%s(%s,ws%d)", opNames[e.Op], e.Kids[0], e.C)
 	}
@@ -224,11 +233,11 @@ func exprNullable(e *Expr, nl []bool) bool {
 	switch e.Op {
 	case OpRune, OpKw:
 		return false
-	case OpEmpty, OpOpt, OpMany, OpSepBy, OpEnd:
+	case OpEmpty, OpOpt, OpMany, OpSepBy, OpEnd, OpMark:
 		return true
 	case OpRTrim, OpLTrim, OpSingle, OpSuppress:
 		return exprNullable(e.Kids[0], nl)
-	case OpSeqRetSingle:
+	case OpSeqRetSingle, OpSeqPickFirst:
 		for _, k := range e.Kids {
 			if !exprNullable(k, nl) {
 				return false
@@ -510,7 +519,7 @@ func (g *Grammar) RefModelled() bool {
 				})
 				return
 			}
-			if e.Op > OpNT && e.Op != OpLTrim && e.Op != OpEnd && e.Op != OpKw {
+			if e.Op > OpNT && e.Op != OpLTrim && e.Op != OpEnd && e.Op != OpKw && e.Op != OpMark {
 				ok = false
 			}
 		})
